@@ -7,8 +7,9 @@ from core import Case, enc_call, guard
 
 ID = "C03"
 PROOF_FILE = "Properties/C03.v"
-THEOREMS = ["C03_thresholds_2_to_4", "C03_threshold_1", "C03_trimming", "C03_monotone", "C03_unique"]
-CONE = ["Proofs/GenerateProofs.v", "Proofs/GraphProofs.v", "Proofs/KmerProofs.v", "Graph.v", "Kmer.v", "GraphSpec.v",
+THEOREMS = ["C03_thresholds_2_to_4", "C03_threshold_1", "C03_trimming", "C03_monotone", "C03_unique",
+            "C03_latter_map_trimming", "C03_remove_useless"]
+CONE = ["Proofs/GenerateProofs.v", "Proofs/TrimMapProofs.v", "Proofs/ReprProofs.v", "Proofs/GraphProofs.v", "Proofs/KmerProofs.v", "Graph.v", "Kmer.v", "GraphSpec.v",
         "Spec.v", "Py.v"]
 MODEL_FUNCTIONS = ["connect_coding_graph", "remove_useless", "latter_map_to_accessor", "accessor_to_latter_map",
                    "connect_valid_graph", "obtain_vertices", "obtain_latters", "obtain_formers"]
@@ -24,9 +25,8 @@ TRUSTED_BASE = [
     "Print Assumptions of every C03 theorem: Closed under the global context",
     "extraction (ExtrOcamlBasic only) + coq/extract/driver.ml + OCaml 4.13.1",
     "correspondence harness harness/core.py, harness/props/c03.py, harness/gen.py (independent fixed-point oracle)",
-    "modelled, not verified: numpy where/sum/zeros/ones/boolean masks and in-place row assignment; the equivalence of the "
-    "latter-map trimming (remove_useless) with the mask trimming for t >= 2 is established by correspondence + oracle, not "
-    "by a theorem (the model of remove_useless is compared with the implementation on every case)",
+    "modelled, not verified: numpy where/sum/zeros/ones/boolean masks and in-place row assignment, dict iteration order "
+    "in remove_useless (insertion order, modelled as an association list)",
 ]
 ASSUMPTIONS = ["masks have one 0/1 entry per vertex", "k >= 1"]
 EXHAUSTIVE = {"thorough": True}
